@@ -186,16 +186,51 @@ def rule_H4(ctx):
     else:
         r.ok('intle2bitstore parameters forwarded unchanged')
     # float setters: be -> big_endian True, le -> False
-    for nm, want in (('_setfloatbe', 'True'), ('_setfloatle', 'False')):
+    for nm, want in (('_setfloatbe', True), ('_setfloatle', False)):
         f = m.classes['Bits'].methods.get(nm)
         if f is None:
             raise AnalysisError(f'anchor vanished: Bits.{nm}')
-        calls = [x for x in own_walk(f.node) if isinstance(x, ast.Call) and ast.unparse(x.func) == 'self._setfloat']
-        if len(calls) != 1 or ast.unparse(calls[0].args[2]) != want:
-            r.fail(f.key, f'{nm} endianness flag', f'{nm} must call _setfloat(..., {want})', loc=f.loc())
+        flags = _float_order_flags(m, f)
+        if flags is None:
+            raise AnalysisError(f'Bits.{nm}: float encoder call not recognised (needs a human)')
+        if flags != [want]:
+            r.fail(f.key, f'{nm} endianness flag', f'{nm} must encode with big_endian={want} (float2bitstore(f, length, {want}), directly or through _setfloat)',
+                   loc=f.loc())
         else:
             r.ok(f'{nm}')
     return r
+
+
+def _float_order_flags(m, f):
+    """Byte-order flags (folded third arguments / big_endian keywords) of the float2bitstore calls a float setter makes, in the
+    setter itself or in the one shared method it hands (f, length, flag) to.  None if there is no such call."""
+    def enc_calls(fn):
+        return [x for x in own_walk(fn.node) if isinstance(x, ast.Call) and isinstance(x.func, (ast.Attribute, ast.Name))
+                and ast.unparse(x.func).split('.')[-1] == 'float2bitstore']
+
+    def flag_of(c):
+        for k in c.keywords:
+            if k.arg == 'big_endian':
+                return k.value
+        return c.args[2] if len(c.args) > 2 else None
+    out = []
+    for c in enc_calls(f):
+        out.append(fold(flag_of(c)) if flag_of(c) is not None else None)
+    for c in own_walk(f.node):
+        if isinstance(c, ast.Call) and isinstance(c.func, ast.Attribute) and isinstance(c.func.value, ast.Name) and c.func.value.id == 'self' and f.cls:
+            kind, p = m.lookup(f.cls, c.func.attr)
+            if kind != 'method' or len(p) != 1:
+                continue
+            g = p[0]
+            params = g.params()[1:]
+            bind = dict(zip(params, c.args))
+            bind.update({k.arg: k.value for k in c.keywords if k.arg})
+            for c2 in enc_calls(g):
+                fl = flag_of(c2)
+                if isinstance(fl, ast.Name) and fl.id in bind:
+                    fl = bind[fl.id]
+                out.append(fold(fl) if fl is not None else None)
+    return out or None
 
 
 def rule_ESC(ctx):
